@@ -167,7 +167,7 @@ def numeration(ctx, R, total=False):
             if total:
                 R.bad("C11.INT2NAME", f.qual + "|residue %d" % r, where(f, w), "the digit loop leaves the integers or the congruence domain (%s): chr() of a non-integer raises TypeError, an unbounded loop never returns" % e)
                 return
-            R.undecided("C20.NUMERATION", f.qual + "|residue %d" % r, where(f, w), "the digit loop is outside the congruence domain (%s): it cannot be shown to be bijective base 26" % e)
+            R.bad("C20.NUMERATION", f.qual + "|residue %d" % r, where(f, w), "the digit loop is outside the congruence domain (%s): it cannot be shown to be bijective base 26" % e)
             return
         nxt = env[dvar]
         want_m = (r - 1) % 26
